@@ -98,14 +98,14 @@ mut("C14", "valid_units_check_only_first", UD, "                if fixed_unit no
 mut("C14", "legacy_default_unit_not_fixed", UD, "            if was_unit_fixed:\n                default_unit = fixed_default_unit\n            if default_unit not in quantity_units:", "            if fixed_default_unit not in quantity_units:")
 mut("C14", "from_category_ignores_explicit_default_value", UD, "            if default_value is None:\n                default_value = category_info.default_value\n            if min_value is None:", "            default_value = category_info.default_value\n            if min_value is None:")
 mut("C14", "default_value_max_assert_inclusive_only", UD, "                if is_max_exclusive:\n                    assert default_value < max_value, msg % (", "                if False:\n                    assert default_value < max_value, msg % (")
-mut("C14", "override_keeps_memo_and_cache", UD, "        if category in self.categories_to_quantity_types:\n            # Replacing a category: quantities already interned for it embed the previous\n            # category info (quantity type, limits, conversion), so they can't be handed out again.\n            self.quantities_cache.clear()\n", "")
+mut("C14", "override_keeps_memo_and_cache", UD, "        # Quantities already interned may not be handed out again: when a category is replaced they\n        # embed the previous category info (quantity type, limits, conversion), and a request that\n        # named only a unit was resolved without this category (it may be the unit's default\n        # category now).\n        self.quantities_cache.clear()\n", "")
 mut("C14", "getvalidunits_fallback_reverted", UD, "                if (\n                    base_category_info is not None\n                    and base_category_info.quantity_type == quantity_type\n                ):\n                    return self.GetValidUnits(quantity_type)", "                return self.GetValidUnits(quantity_type)")
 
 # ---------------------------------------------------------------------------------------- C15
 mut("C15", "revert_getvalidunits_copy", AV, "        valid_units = list(self.GetUnitDatabase().GetValidUnits(self.GetCategory()))", "        valid_units = self.GetUnitDatabase().GetValidUnits(self.GetCategory())")
 mut("C15", "revert_memo_invalidation_addunit", UD, "        # A unit looked up before being registered was memoized as invalid for its categories.\n        self._category_unit_valid.clear()\n", "")
 mut("C15", "revert_memo_invalidation_addcategory", UD, "        # Verdicts memoized before this registration (including negative ones) may now be wrong.\n        self._category_unit_valid.clear()\n", "")
-mut("C15", "revert_cache_invalidation_override", UD, "            self.quantities_cache.clear()\n        # Verdicts memoized", "            pass\n        # Verdicts memoized")
+mut("C15", "revert_cache_invalidation_override", UD, "        # category now).\n        self.quantities_cache.clear()\n        # Verdicts memoized", "        # category now).\n        pass\n        # Verdicts memoized")
 mut("C15", "getvalidunits_memoises_type_units_into_category", UD, "            # the valid units have not been specified for the given category (so, let's return\n            # the units for the quantity type)\n            return self.GetUnits(quantity_type)", "            category_info.valid_units = self.GetUnits(quantity_type)\n            return category_info.valid_units")
 mut("C15", "clear_keeps_quantities_cache", UD, "        self.unit_to_unit_info.clear()\n        self.quantities_cache.clear()\n        self._category_unit_valid.clear()", "        self.unit_to_unit_info.clear()\n        self._category_unit_valid.clear()")
 mut("C15", "clear_keeps_memo", UD, "        self.unit_to_unit_info.clear()\n        self.quantities_cache.clear()\n        self._category_unit_valid.clear()", "        self.unit_to_unit_info.clear()\n        self.quantities_cache.clear()")
